@@ -364,6 +364,28 @@ func (s *fsys) Close() {
 	_ = os.RemoveAll(filepath.Dir(s.R))
 }
 
+// cleanDir makes dir an existing, empty directory. The directory itself is
+// kept between resets (nothing in the alphabets changes its attributes), so
+// that 16 worker processes do not contend on the lock of the common parent.
+func cleanDir(dir string) error {
+	es, err := os.ReadDir(dir)
+	if err != nil {
+		if os.IsNotExist(err) {
+			return os.MkdirAll(dir, 0o755)
+		}
+
+		return err
+	}
+
+	for _, e := range es {
+		if err := os.RemoveAll(filepath.Join(dir, e.Name())); err != nil {
+			return err
+		}
+	}
+
+	return nil
+}
+
 func newVFS(fsName string) avfs.VFS {
 	dirs := []avfs.DirInfo{{Path: "/tmp", Perm: 0o777}}
 
@@ -385,11 +407,7 @@ func (s *fsys) Reset() error {
 	s.closeHandles()
 	_ = os.Chdir("/")
 
-	if err := os.RemoveAll(filepath.Dir(s.R)); err != nil {
-		return err
-	}
-
-	if err := os.MkdirAll(s.R, 0o755); err != nil {
+	if err := cleanDir(s.R); err != nil {
 		return err
 	}
 
